@@ -283,21 +283,14 @@ def r13_6(ctx: Ctx) -> RuleResult:
             if fr is not None:
                 expr: Optional[ast.expr] = fr
                 if isinstance(fr, ast.Name):
-                    # latest assignment before the call (by line)
-                    assigns = [
-                        n for n in ast.walk(fn.node)
-                        if isinstance(n, ast.Assign) and path_of(n.targets[0]) == fr.id and n.lineno < c.lineno
-                    ]
-                    expr = max(assigns, key=lambda n: n.lineno).value if assigns else None
-                    # no token may be consumed between that assignment and the construction
-                    if assigns:
-                        last = max(assigns, key=lambda n: n.lineno)
-                        between = [
-                            x for x in calls(fn.node)
-                            if callee_name(x) in ("next_token", "next") and last.lineno < x.lineno < c.lineno
-                        ]
-                        if between:
-                            expr = None
+                    # the assignment that precedes the construction in block order; no token may be
+                    # consumed between the two
+                    from .common import preceding_def
+
+                    pd = preceding_def(fn.node, fr.id, c)
+                    expr = pd[0].value if pd is not None else None
+                    if pd is not None and any(callee_name(x) in ("next_token", "next") for st in pd[1] for x in calls(st)):
+                        expr = None
                 if (
                     isinstance(expr, ast.Compare) and len(expr.ops) == 1 and isinstance(expr.ops[0], (ast.Eq, ast.Is))
                     and (path_of(expr.left) or "").endswith(".kind")
